@@ -1496,6 +1496,9 @@ namespace ipr {
       void visit(const Type& t) final
       {
          // FIXME: Check.
+         // A type that is named by its own type-id cannot be printed through its name.
+         if (auto id = util::view<Type_id>(t.name()); id != nullptr and physically_same(id->type_expr(), t))
+            Missing_overrider{ }(t);
          pp << xpr_name(t.name());
       }
 
